@@ -272,7 +272,14 @@ def step (st : St) (line : String) : St × String :=
   -- trailing hints
   let nowTok := optVal (toks0.map (fun t => if t.startsWith "@" then (t.drop 1).toString else "")) "now"
   let env : Env := { clock := (nowTok.bind (·.toNat?)).getD 0 }
-  let toks := toks0.filter (fun t => !t.startsWith "@")
+  let toks1 := toks0.filter (fun t => !t.startsWith "@")
+  -- the absolute-cache / other-working-directory spellings of the linker ops denote the same model
+  -- operations: the model's linker holds the absolute target from `lopen` on (C19.link_text_absolute)
+  let toks := match toks1 with
+    | "lopen_abs" :: r => "lopen" :: r
+    | "lopen_auto_abs" :: r => "lopen_auto" :: r
+    | ["lcommit_cd", l, _] => ["lcommit", l]
+    | t => t
   let bad := (st, "err badarg")
   match toks with
   | ["write", f, c, a, k, d] =>
